@@ -184,6 +184,14 @@ def P_(title, sections, gens, observable=None, internal=(), oracles=(), impl_che
 def obs_res(d_impl, d_model, il, ml):
     return res_line(il), res_line(ml)
 
+def mk_obs_acc(fn):
+    """observable projection that also requires the same accept/reject decision"""
+    def f(di, dm, il, ml):
+        if di.ok and dm.ok:
+            return (True, fn(di)), (True, fn(dm))
+        return (di.ok,), (dm.ok,)
+    return f
+
 def mk_obs(fn):
     """observable projection over Dump objects; only compared when both sides accepted"""
     def f(di, dm, il, ml):
@@ -291,7 +299,7 @@ PROPS['C01'] = P_('parsing is total', 'tok,arena', plan(G_COMMON_QUICK, G_COMMON
 PROPS['C02'] = P_('well-formed ordered tree', 'arena', plan(G_COMMON_QUICK, G_COMMON_THOROUGH),
                   observable=mk_obs(lambda d: d.structure()), internal=['N'], oracles=['C02.'], special='tree')
 PROPS['C03'] = P_('markup mirrors the logical structure', 'tok,arena', plan(G_COMMON_QUICK, G_COMMON_THOROUGH),
-                  observable=mk_obs(lambda d: d.markup()), internal=['TK', 'TKRES'], special='markup')
+                  observable=mk_obs_acc(lambda d: d.markup()), internal=['TK', 'TKRES'], special='markup')
 PROPS['C04'] = P_('character data decoding', 'arena,ev',
                   plan(G_COMMON_QUICK[:2] + [['pieces-text', 2]], G_COMMON_THOROUGH[:3] + [['pieces-text', 4]]),
                   observable=mk_obs(lambda d: d.texts()), internal=['EV F'], special='pieces_text')
@@ -301,7 +309,7 @@ PROPS['C05'] = P_('attributes', 'arena,ev',
 PROPS['C06'] = P_('namespaces', 'arena', plan(G_COMMON_QUICK, G_COMMON_THOROUGH),
                   observable=mk_obs(lambda d: d.namespaces()), internal=['V', 'O'], special='ns_scale')
 PROPS['C07'] = P_('entity reference = replacement text', 'arena', plan([['model', 1500, 10]], [['model', 20000, 10]]),
-                  observable=mk_obs(lambda d: d.content()), special='hoist')
+                  observable=mk_obs_acc(lambda d: d.content()), special='hoist')
 PROPS['C08'] = P_('ill-formed documents are rejected', 'tok,arena', plan(G_COMMON_QUICK, G_COMMON_THOROUGH),
                   observable=lambda di, dm, il, ml: (res_kind(res_line(il)) == 'ok', res_kind(res_line(ml)) == 'ok'),
                   internal=['RES', 'TKRES'], special='illform')
@@ -313,7 +321,7 @@ PROPS['C10'] = P_('read operations are total', 'arena,api,lk,it,tp', plan(G_COMM
 PROPS['C11'] = P_('navigation agrees with the tree', 'arena,api,it', plan(G_COMMON_QUICK[:3], G_COMMON_THOROUGH[:4]),
                   observable=obs_api(['DQ', 'Q', 'IT', 'AQ', 'NQ']), oracles=['C11.'])
 PROPS['C12'] = P_('name lookups', 'arena,api,lk', plan(G_COMMON_QUICK[:3], G_COMMON_THOROUGH[:4]),
-                  observable=obs_api(['LK', 'AE', 'NQ', 'AQ']), oracles=['C12.'])
+                  observable=obs_api(['LK', 'AE', 'NQ', 'AQ']), oracles=['C12.'], special='lookups')
 PROPS['C13'] = P_('source ranges', 'arena,api', plan(G_COMMON_QUICK[:3], G_COMMON_THOROUGH[:4]),
                   observable=mk_obs(lambda d: d.ranges()), oracles=['C13.'], special='shift')
 PROPS['C14'] = P_('text positions and error reports', 'arena,tp', plan(G_COMMON_QUICK, G_COMMON_THOROUGH),
@@ -326,7 +334,7 @@ PROPS['C16'] = P_('allow_dtd', 'arena', plan([['model', 1500, 20], ['mut', 800, 
 PROPS['C17'] = P_('node identity, ordering, hashing', 'arena,api', plan([['model', 300, 0]], [['model', 3000, 0]]),
                   observable=obs_api(['DQ']), special='ord')
 PROPS['C18'] = P_('borrowed strings', 'arena', plan(G_COMMON_QUICK[:3], G_COMMON_THOROUGH[:4]),
-                  observable=mk_obs(lambda d: d.storages()), impl_checks=[chk_borrowed])
+                  observable=mk_obs(lambda d: d.storages()), impl_checks=[chk_borrowed], special='storage')
 PROPS['C19'] = P_('determinism and features', 'arena', plan([['model', 800, 20], ['fixtures', 4000]], [['model', 10000, 20], ['fixtures', 20000], ['mut', 5000, 400]]),
                   observable=mk_obs(lambda d: d.content()), internal=['RES'], special='features')
 PROPS['C20'] = P_('immutable, thread-shareable, no unsafe', 'arena,api', plan([['model', 200, 0]], [['model', 2000, 0]]),
